@@ -98,6 +98,18 @@ CLAIMED["C04"] = dict(
     technique="jaxpr symbolic execution + polynomial hypotheses + z3 QF_LRA (XL certificates, relational two-run encoding); float64 replay",
     design="§4 C04")
 
+CLAIMED["C18"] = dict(
+    text="Bounded symbolic model checking of the real helpers: dt0 and dt0_adaptive are traced with an UNINTERPRETED vector "
+         "field (every field, including f(u0)=0) and executed over z3 terms (ite for the where-guards, uninterpreted "
+         "products/quotients/powers/norms with sign and bound axioms); z3 decides that the proposal is strictly positive for "
+         "every real initial value incl. zero, every t0, atol, rtol>0, and that dt0_adaptive equals an independently written "
+         "Hairer-Norsett-Wanner II.4 model term by term. Models are replayed on the real helpers.",
+    technique="jaxpr symbolic execution over z3 terms (ite, UF abstractions with instantiated axioms) + z3 QF_UFLRA; concrete replay",
+    design="§4 C18",
+    note="Assumes reals (no overflow/underflow: magnitudes like 1e300 are floating-point questions), scalar and 2-d states, "
+         "and sound UF abstractions of products, quotients, powers and Euclidean norms. Trusted base: JAX tracing, jxs "
+         "interpreter, z3.")
+
 DIRECT_NOTE = ("Assumes real arithmetic and polynomial inputs with symbolic coefficients up to the stated degree/size. "
                "Trusted base: CPython+JAX tracing (jet/jvp/vmap are JAX's own), the jxs interpreter and polynomial "
                "arithmetic (re-validated every run against the real JAX runtime), z3.")
